@@ -1,12 +1,193 @@
-(* Lemmas about Model/AstWriter.v (no property theorems here). *)
+(* Lemmas about Model/AstWriter.v (no property theorems here).
+
+   The cursor discipline: whatever the tree, every action of the walk extends the output by a list of
+   chunks that tiles the token list between the old and the new cursor - a Trivia chunk carries exactly the
+   run of white-space / comment tokens the cursor passed, a Code chunk stands for exactly one token. *)
 From PV Require Import Base.Prelude Spec.LuaTokens Spec.LuaGrammar Model.Tokens Model.WriterChunks Model.AstWriter.
 From Coq Require Import ZifyBool.
 Ltac Zify.zify_post_hook ::= Z.to_euclidean_division_equations.
 
+Section T.
+Variable ts : list token.
+
+(* the chunks cs account for the tokens with indices q .. p-1, in order, each exactly once *)
+Inductive tiling : Z -> list chunk -> Z -> Prop :=
+| til_nil q : tiling q [] q
+| til_trivia q ind e run cs p :
+    run = firstn (length run) (skipn (Z.to_nat q) ts) -> forallb is_trivia run = true ->
+    e = (q + zlen run =? zlen ts) ->
+    tiling (q + zlen run) cs p -> tiling q (Trivia q ind e run :: cs) p
+| til_code q text cs p : tiling (q + 1) cs p -> tiling q (Code q text :: cs) p.
+
+Lemma tiling_app q cs p cs' p' : tiling q cs p -> tiling p cs' p' -> tiling q (cs ++ cs') p'.
+Proof.
+  induction 1 as [q|q ind e run cs p H1 H2 H3 H4 IH|q text cs p H IH]; intros H'; cbn [app].
+  - exact H'.
+  - apply til_trivia; try assumption. apply IH, H'.
+  - apply til_code. apply IH, H'.
+Qed.
+
+Lemma tiling_mono q cs p : tiling q cs p -> q <= p.
+Proof. induction 1; unfold zlen in *; lia. Qed.
+
+(* an action extends the output by chunks that tile [old cursor, new cursor) *)
+Definition ext (m : WM) : Prop :=
+  forall st st', 0 <= w_pos st -> m st = Ok st' ->
+  exists cs, w_out st' = rev cs ++ w_out st /\ tiling (w_pos st) cs (w_pos st').
+
+Lemma ext_seq a b : ext a -> ext b -> ext (a >> b).
+Proof.
+  intros Ha Hb st st' H0 H. unfold seq in H. destruct (a st) as [st1|e] eqn:E; [|discriminate].
+  destruct (Ha st st1 H0 E) as (c1 & Ho1 & Ht1).
+  assert (H1 : 0 <= w_pos st1) by (apply tiling_mono in Ht1; lia).
+  destruct (Hb st1 st' H1 H) as (c2 & Ho2 & Ht2).
+  exists (c1 ++ c2). split.
+  - rewrite Ho2, Ho1, rev_app_distr, app_assoc. reflexivity.
+  - eapply tiling_app; eassumption.
+Qed.
+
+Lemma ext_skip : ext skip.
+Proof. intros st st' _ [= <-]. exists []. split; [reflexivity | apply til_nil]. Qed.
+
+Lemma ext_fail e : ext (fail_with e).
+Proof. intros st st' _ H. discriminate H. Qed.
+
+Lemma ext_indent d : ext (indent_by d).
+Proof. intros st st' _ [= <-]. exists []. split; [reflexivity | apply til_nil]. Qed.
+
+Lemma trivia_run_spec l n :
+  trivia_run l n = firstn (length (trivia_run l n)) l /\ forallb is_trivia (trivia_run l n) = true.
+Proof.
+  revert l; induction n as [|n IH]; intros l.
+  - destruct l; split; reflexivity.
+  - destruct l as [|t r]; [split; reflexivity|]. cbn [trivia_run]. destruct (is_trivia t) eqn:E; [|split; reflexivity].
+    destruct (IH r) as [H1 H2]. cbn [length firstn forallb]. rewrite E, H2. split; [f_equal; exact H1 | reflexivity].
+Qed.
+
+Lemma ext_spaces_to b : ext (spaces_to ts b).
+Proof.
+  intros st st' H0 [= <-]. cbn [w_pos w_out].
+  set (run := trivia_run (skipn (Z.to_nat (w_pos st)) ts) (Z.to_nat (b - w_pos st))).
+  exists [Trivia (w_pos st) (w_ind st) (w_pos st + zlen run =? ntok ts) run]. split; [reflexivity|].
+  destruct (trivia_run_spec (skipn (Z.to_nat (w_pos st)) ts) (Z.to_nat (b - w_pos st))) as [H1 H2].
+  apply til_trivia; [exact H1 | exact H2 | reflexivity | apply til_nil].
+Qed.
+
+Lemma ext_spaces node : ext (spaces ts node).
+Proof. unfold spaces. destruct (bound_of ts node); [apply ext_spaces_to | apply ext_fail]. Qed.
+
+Lemma ext_advance text : ext (advance_emit text).
+Proof.
+  intros st st' _ [= <-]. cbn [w_pos w_out]. exists [Code (w_pos st) text]. split; [reflexivity|].
+  apply til_code, til_nil.
+Qed.
+
+Lemma ext_with_cur k : (forall t, ext (k t)) -> ext (with_cur ts k).
+Proof.
+  intros Hk st st' H0 H. unfold with_cur in H. destruct (cur ts st) as [t|e]; [|discriminate].
+  exact (Hk t st st' H0 H).
+Qed.
+
+Lemma ext_with_peek k : (forall o, ext (k o)) -> ext (with_peek ts k).
+Proof. intros Hk st st' H0 H. exact (Hk _ st st' H0 H). Qed.
+
+Lemma ext_with_st k : (forall s, ext (k s)) -> ext (with_st k).
+Proof. intros Hk st st' H0 H. exact (Hk st st st' H0 H). Qed.
+
+Ltac ext_step :=
+  lazymatch goal with
+  | H : ext ?m |- ext ?m => exact H
+  | |- ext (_ >> _) => apply ext_seq
+  | |- ext skip => apply ext_skip
+  | |- ext (fail_with _) => apply ext_fail
+  | |- ext (indent_by _) => apply ext_indent
+  | |- ext (spaces _ _) => apply ext_spaces
+  | |- ext (spaces_to _ _) => apply ext_spaces_to
+  | |- ext (advance_emit _) => apply ext_advance
+  | |- ext (with_cur _ _) => apply ext_with_cur; intros ?
+  | |- ext (with_peek _ _) => apply ext_with_peek; intros ?
+  | |- ext (with_st _) => apply ext_with_st; intros ?
+  | |- ext (if ?b then _ else _) => destruct b
+  | |- ext (match ?x with _ => _ end) => destruct x
+  | |- ext (let _ := _ in _) => cbv zeta
+  end.
+Ltac ext_tac := repeat ext_step.
+
+Lemma ext_get_text node kw : ext (get_text ts node kw).
+Proof. unfold get_text. ext_tac. Qed.
+
+Lemma ext_get_name node t : ext (get_name ts node t).
+Proof. unfold get_name. ext_tac. Qed.
+
+Lemma ext_get_semis n node : ext (get_semis ts n node).
+Proof. induction n as [|n IH]; cbn [get_semis]; ext_tac. Qed.
+
+Lemma ext_semis node : ext (semis ts node).
+Proof. unfold semis. apply ext_with_st. intros s. apply ext_get_semis. Qed.
+
+Lemma ext_with_code t k : (forall c, ext (k c)) -> ext (with_code t k).
+Proof. intros Hk. unfold with_code. destruct t; try apply ext_fail. apply Hk. Qed.
+
+Lemma ext_name_tok t k : (forall x, ext (k x)) -> ext (name_tok t k).
+Proof. intros Hk. unfold name_tok. destruct t; try apply ext_fail. apply Hk. Qed.
+
+Section Loops.
+Variable w : tree -> WM.
+Hypothesis Hw : forall x, ext (w x).
+Variable node : tree.
+
+Ltac lp IH :=
+  repeat first [ ext_step | apply ext_get_text | apply ext_get_name | apply ext_semis | apply Hw | apply IH ].
+
+Lemma ext_sep_rest sep l : ext (sep_rest ts w node sep l).
+Proof. induction l as [|x r IH]; cbn [sep_rest]; lp IH. Qed.
+
+Lemma ext_name_rest sep l : ext (name_rest ts node sep l).
+Proof. induction l as [|x r IH]; cbn [name_rest]; lp IH. Qed.
+
+Lemma ext_field_rest l : ext (field_rest ts w node l).
+Proof. induction l as [|x r IH]; cbn [field_rest]; lp IH. Qed.
+
+Lemma ext_stats l : ext (stats ts w node l).
+Proof. induction l as [|x r IH]; cbn [stats]; lp IH. Qed.
+
+Lemma ext_if_pairs sh : forall l first, ext (if_pairs ts w node sh first l).
+Proof. induction l as [|x r IH]; intros first; cbn [if_pairs]; lp IH. Qed.
+End Loops.
+
+Lemma ext_walk n : forall node, ext (walk ts n node).
+Proof.
+  induction n as [|n IH]; intros node; cbn [walk]; [apply ext_fail|].
+  apply ext_seq; [apply ext_spaces|].
+  destruct node as [tag s e sh fs| | | | | | | |]; try apply ext_skip.
+  cbv zeta.
+  repeat first
+    [ ext_step | apply ext_get_text | apply ext_get_name | apply ext_semis | apply IH
+    | apply ext_stats | apply ext_sep_rest | apply ext_name_rest | apply ext_field_rest | apply ext_if_pairs
+    | apply ext_with_code; intros ? | apply ext_name_tok; intros ? ].
+Qed.
+
 (* the end-of-input check of to_lines *)
-Lemma writer_refuses_unparsed_tail ts W tag s e sh fs :
+Lemma writer_refuses_unparsed_tail W tag s e sh fs :
   AstWriter.all_trivia (skipn (Z.to_nat e) ts) = false ->
   writer_chunks ts (Node tag s e sh fs) = Err ParserError /\ writer_text W ts (Node tag s e sh fs) = Err ParserError.
 Proof.
   intros H. unfold writer_text, writer_chunks. rewrite H. cbn [negb]. split; reflexivity.
 Qed.
+
+(* a successful run: the chunks tile the whole token list *)
+Lemma writer_chunks_tiling root cs p :
+  writer_chunks ts root = Ok (cs, p) -> p = zlen ts /\ tiling 0 cs (zlen ts).
+Proof.
+  unfold writer_chunks. destruct root as [tag s e sh fs| | | | | | | |]; try discriminate.
+  destruct (negb _); [discriminate|].
+  destruct ((walk ts _ _ >> spaces_to ts (ntok ts)) (mkW 0 0 [])) as [st|err] eqn:E; [|discriminate].
+  destruct (w_pos st =? ntok ts) eqn:Ep; [|discriminate]. intros [= <- <-].
+  apply Z.eqb_eq in Ep. unfold ntok in Ep. split; [exact Ep|].
+  assert (Hx : ext (walk ts (2 * tdepth (Node tag s e sh fs) + 2) (Node tag s e sh fs) >> spaces_to ts (ntok ts)))
+    by (apply ext_seq; [apply ext_walk | apply ext_spaces_to]).
+  destruct (Hx (mkW 0 0 []) st (Z.le_refl 0) E) as (cs & Ho & Ht). cbn [w_pos w_out] in *.
+  rewrite app_nil_r in Ho. rewrite Ho. unfold rev'. rewrite <- rev_alt, rev_involutive. rewrite <- Ep. exact Ht.
+Qed.
+
+End T.
